@@ -154,13 +154,14 @@ def check_property(prop: str, tier: str) -> int:
     known = load_known()
     import glob as _glob
 
-    for _f in _glob.glob(os.path.join(VERIF, "replays", prop + "-*.json")):
+    for _f in _glob.glob(os.path.join(os.environ.get("SYMX_REPLAY_DIR") or os.path.join(VERIF, "replays"), prop + "-*.json")):
         os.unlink(_f)  # replay files of earlier runs of this property are stale
     violations: list[dict] = []
     known_hits: dict[str, dict] = {}
     harness_errors: list[str] = []
     inconclusive: list[str] = []
-    replay_dir = os.path.join(VERIF, "replays")
+    replay_dir = os.environ.get("SYMX_REPLAY_DIR") or os.path.join(VERIF, "replays")
+    evidence_dir = os.environ.get("SYMX_EVIDENCE_DIR") or os.path.join(VERIF, "evidence")
     tot = dict(paths=0, confirmed=0, refuted=0, unknown=0, ignored=0, decisions=0, z3_checks=0, z3_time=0.0, cpu=0.0, validated=0)
     cov_total: dict[str, int] = {}
     functions: set[str] = set()
@@ -337,8 +338,8 @@ def check_property(prop: str, tier: str) -> int:
         "wall_s": round(wall, 2),
         "violations": len(violations),
     }
-    os.makedirs(os.path.join(VERIF, "evidence"), exist_ok=True)
-    with open(os.path.join(VERIF, "evidence", prop + ".json"), "w") as f:
+    os.makedirs(evidence_dir, exist_ok=True)
+    with open(os.path.join(evidence_dir, prop + ".json"), "w") as f:
         json.dump(ev, f, indent=1)
 
     print(
